@@ -46,6 +46,13 @@ Proof. exact L_sanitize_valid. Qed.
 Theorem sanitize_total : forall s, ref_sanitize s <> Panic /\ ref_sanitize s <> OutOfFuel.
 Proof. exact L_sanitize_total. Qed.
 
+(* a name that passes name_partial is returned unchanged; hence sanitising twice changes nothing more *)
+Theorem sanitize_keeps_valid : forall s, is_ok (ref_name_partial s) = true -> ref_sanitize s = Ok s.
+Proof. exact L_sanitize_keeps_valid. Qed.
+
+Theorem sanitize_idempotent : forall s o, ref_sanitize s = Ok o -> ref_sanitize o = Ok o.
+Proof. exact L_sanitize_idempotent. Qed.
+
 (* PartialName::join(base, component) is the partial-name check of base/component *)
 Theorem join_is_git : forall base comp,
   is_ok (partial_join base comp) = git_check (base ++ slash :: comp) true.
@@ -62,6 +69,10 @@ Example ex_accept : is_ok (ref_name (bs "refs/heads/main")) = true /\ is_ok (ref
   /\ is_ok (ref_name_partial (bs "@")) = false /\ is_ok (tag_name (bs "@")) = true
   /\ is_ok (ref_name_partial (bs "a.lock/b")) = false /\ has_slash (bs "a/b") = true
   /\ has_slash (bs "HEAD") = false /\ existsb (beqb x00) (bs "refs/heads/main") = false.
+Proof. vm_compute. repeat split. Qed.
+
+Example ex_keeps : is_ok (ref_name_partial (bs "refs/heads/x@y.lck")) = true
+  /\ ref_sanitize (bs "a@{b") = Ok (bs "a@-b") /\ ref_sanitize (bs "a@-b") = Ok (bs "a@-b").
 Proof. vm_compute. repeat split. Qed.
 
 Example ex_sanitize : ref_sanitize (bs "/") = Ok (bs "-") /\ ref_sanitize (bs ".lock.lock") = Ok (bs "-")
